@@ -132,11 +132,11 @@ module.exports = {
     const combos = []
     for (let t = 0; t < REENTRANT.length; t++) for (let i = 0; i < E.length; i++) for (let j = 0; j < E.length; j++) combos.push([t, i, j])
     const rng = new Rng(ctx.seed, 'c06plan')
-    const pick = ctx.tier === 'thorough' ? combos : rng.sample(combos, 120)
+    const pick = ctx.tier === 'thorough' ? combos : rng.sample(combos, 300)
     for (const c of chunk(pick, 30)) shards.push({ kind: 'reentrant', combos: c })
     shards.push({ kind: 'reentrant-known' })
     shards.push({ kind: 'collision' })
-    for (const s of structPlan(ctx, { quickCorpus: 100, exec: { quickRandom: 400, quickFormsPerPlacement: 3 } })) shards.push(s)
+    for (const s of structPlan(ctx, { quickCorpus: 250, exec: { quickRandom: 2000, quickFormsPerPlacement: 8, thoroughRandom: 30000 } })) shards.push(s)
     return shards
   },
   minEvaluations () { return 300 },
